@@ -456,7 +456,15 @@ impl Writer {
     ) -> Result<KeyDirEntry, Error> {
         // Append log entry
         let datafile_entry = DataFileEntry { tstamp, key, value };
-        let index = self.writer.append(&datafile_entry)?;
+        let index = match self.writer.append(&datafile_entry) {
+            Ok(index) => index,
+            Err(e) => {
+                // The active file may now end in a partial entry. Appending after it would
+                // corrupt every later entry for the recovery scan, so continue in a new file.
+                self.new_active_datafile(self.active_fileid + 1)?;
+                return Err(e.into());
+            }
+        };
         #[cfg(feature = "verif")]
         crate::verif::point(
             "write.appended",
